@@ -14,11 +14,13 @@ import random
 import shutil
 import subprocess
 from ..common import (Report, main_wrapper, seed, tier, shards, MachineryError,
-                      NCPU, workdir, PY, VERIF, REPO)
+                      NCPU, workdir, PY, VERIF, REPO, pmap)
 from ..tlc import run_tlc, parse_obl
 from .. import values as V
 from .. import wbgen as G
 from .. import lifecycle as L
+from .. import impl
+from .. import wbrun as R
 from . import c03, c07
 
 PID = 'C17'
@@ -53,6 +55,39 @@ def histories(rep, n, sd):
             out.append(h)
     if len(out) < n // 3:
         raise MachineryError('only %d interleavings with a copy were sampled' % len(out))
+    return out
+
+
+def _cyclic_copy(s):
+    """A cyclic workbook, its deep copy and its dill round trip calculated side by side."""
+    import copy
+    import dill
+    f = impl.F()
+    g = G.make_cyclic(s)
+    out = {'seed': s, 'n': 0, 'problems': [], 'workbook': c03.describe(g)}
+    try:
+        m = R.build_dict(g)
+        impl.with_timeout(lambda: m.finish(complete=False, circular=True), 30)
+        ref = R.observe_all(impl.with_timeout(m.calculate, 30), g)
+        copies = {'deepcopy': copy.deepcopy(m), 'dill': dill.loads(dill.dumps(m))}
+        for name, c in copies.items():
+            obs = R.observe_all(impl.with_timeout(c.calculate, 30), g)
+            for i, v in ref.items():
+                out['n'] += 1
+                w = obs.get(i)
+                if w is None or V.show(w) != V.show(v):
+                    out['problems'].append({'copy': name, 'cell': i, 'original': V.show(v),
+                                            'copy_shows': V.show(w) if w else None})
+        # ... and again on the original afterwards (independence)
+        again = R.observe_all(impl.with_timeout(m.calculate, 30), g)
+        for i, v in ref.items():
+            if again.get(i) is None or V.show(again[i]) != V.show(v):
+                out['problems'].append({'copy': 'original-after-copies', 'cell': i, 'original': V.show(v),
+                                        'copy_shows': V.show(again[i]) if again.get(i) else None})
+    except BaseException as ex:  # noqa
+        if isinstance(ex, (KeyboardInterrupt, SystemExit)):
+            raise
+        out['problems'].append({'copy': 'raises', 'exc': '%s: %s' % (type(ex).__name__, str(ex)[:200])})
     return out
 
 
@@ -140,6 +175,20 @@ def main():
                                'how': 'calculations interleaved on a model and its copy; each result '
                                       'against the same (model, inputs) in a process of its own'})
         rep.cov['copy_histories_against_isolated_references'] = ncp
+        # circular models: the copy of a model finished with circular=True shows, cell by
+        # cell, what the original shows (the #CIRC! marks included)
+        ncy = 60 if not thorough else 400
+        cyres = pmap(_cyclic_copy, [seed() * 100000 + 17800 + i for i in range(ncy)], chunk=4)
+        for r in cyres:
+            rep.count(max(1, r['n']))
+            rep.distinct(('cy', r['seed']))
+            for pr in r['problems'][:2]:
+                rep.violation({'kind': 'circular-copy', 'seed': r['seed'], 'cell': pr.get('cell'),
+                               'copy': pr.get('copy')},
+                              {'workbook_seed': r['seed'], 'problem': pr, 'workbook': r['workbook'],
+                               'how': 'from_dict(...).finish(complete=False, circular=True); deepcopy and '
+                                      'dill round trip (model and a compiled function); calculate() on each'})
+        rep.cov['circular_models_copied'] = ncy
         rep.cov['rule'] = ('seeded workbooks (incl. array formulas padded with #N/A) x sampled '
                            'interleavings on {model, copy} with deepcopy / dill, copies of compiled '
                            'functions; every live object observed after every step; distinct '
